@@ -5,6 +5,8 @@ package replication
 import (
 	"context"
 	"errors"
+	"os"
+	"path/filepath"
 	"sync/atomic"
 	"time"
 
@@ -244,5 +246,38 @@ func VerifC15_HeartbeatVsWriteNoDeadlock() {
 	vsym.Assert(!withAck || atomic.LoadInt32(&adone) == 1, "an acknowledgement never returns while the heartbeat monitor drops a replica")
 	vsym.Assert(!c15Reported(p, "bad"), "a dead replica is still in the reported topology after the heartbeat sweep")
 	vsym.Assert(c15Reported(p, "good"), "a healthy replica was dropped from the reported topology")
+	vsym.Reach("done")
+}
+
+// VerifC15_AckVsWriteNoDeadlock: a replica's acknowledgement is processed (session bookkeeping and the log retention
+// check that follows every acknowledgement; the log directory holds an older log file, so the check goes all the way
+// to the log) while a client writes. Both complete: the acknowledgement path and the push path inside the log append
+// take the primary and log locks in compatible orders.
+func VerifC15_AckVsWriteNoDeadlock() {
+	cfg := config.NewDefaultConfig(vsym.Dir())
+	cfg.WALSyncMode = config.SyncMode(vsym.IntRange("sync", 0, 2))
+	sm, err := storage.NewManager(cfg, stats.NewAtomicCollector())
+	vsym.Assert(err == nil, "NewManager failed")
+	k := vsym.Bytes("k", 1)
+	vsym.Assert(sm.Put(k, vsym.Bytes("v", 1)) == nil, "first put failed")
+	// an older log file next to the current one (what a restart behind a damaged tail, or a rotation, leaves)
+	vsym.Assert(os.WriteFile(filepath.Join(cfg.WALDir, "00000000000000000001.wal"), nil, 0644) == nil, "creating an older log file failed")
+	p := c15Primary(sm)
+	session := c15Session("r1", &fakeStream{})
+	p.registerReplicaSession(session)
+	var wdone, adone int32
+	go func() {
+		sm.Put(k, vsym.Bytes("v2", 1))
+		atomic.StoreInt32(&wdone, 1)
+	}()
+	go func() {
+		p.updateSessionAck("r1", 1)
+		p.maybeManageWALRetention()
+		atomic.StoreInt32(&adone, 1)
+	}()
+	vsym.Quiesce()
+	vsym.Reach("probed")
+	vsym.Assert(atomic.LoadInt32(&wdone) == 1, "a client write never returns while an acknowledgement is processed (lock-order deadlock)")
+	vsym.Assert(atomic.LoadInt32(&adone) == 1, "an acknowledgement never returns while a client writes (lock-order deadlock)")
 	vsym.Reach("done")
 }
